@@ -76,14 +76,15 @@ def docs(info):
     return set(x for x in info.split("; ") if x) if isinstance(info, str) else info
 
 
-def main():
-    a = tier_seed()
-    mt = __import__("mystic.termination", fromlist=["x"]) if assert_repo() else None
-    ck = Check("C10", "model_checking", a.tier, a.seed,
+def new_check(a):
+    return Check("C10", "model_checking", a.tier, a.seed,
                rule="every reachable state of the TLA+ machines TermMachine (energy histories), TermPop "
                     "(populations) and TermTree (And/Or/When trees x leaf valuations) is replayed on the real "
                     "mystic.termination objects; a case = (state, condition); non-trivial = the spec says the "
                     "condition is satisfied on a non-empty history/population, or the tree is compound")
+
+
+def explore(ck, mt, a):
     ck.exhaustive = True
     thorough = a.tier == "thorough"
     import warnings
@@ -246,6 +247,123 @@ def main():
                       "NormalizedChangeOverGeneration is specified in its implemented cross-multiplied form with IEEE "
                       "semantics for +inf (the documented quotient form is 0/0 or inf/inf there)",
                       "TimeLimits, GradientNormTolerance and the Collapse* conditions are not leaves here (C11 covers Collapse*)"]
+
+
+def selftest(a, mt):
+    """in-memory mutants of mystic.termination that the replay must catch"""
+    import numpy
+    orig = {k: getattr(mt, k) for k in dir(mt)}
+
+    def m_cog_window():          # lg <= gens  ->  lg < gens
+        def ChangeOverGeneration(tolerance=1e-6, generations=30):
+            doc = "ChangeOverGeneration with %s" % {'tolerance': tolerance, 'generations': generations}
+            def _ChangeOverGeneration(inst, info=False):
+                info = (lambda x: x) if info else bool
+                hist = inst.energy_history
+                lg = len(hist)
+                if not lg: return info("")
+                gens = 0 if generations is None else int(generations)
+                if lg < gens: return info("")
+                if (hist[-gens] - hist[-1]) <= tolerance: return info(doc)
+                if hist[-gens] == hist[-1]: return info(doc)
+                return info("")
+            _ChangeOverGeneration.__doc__ = doc; _ChangeOverGeneration.__module__ = mt.__name__
+            return _ChangeOverGeneration
+        mt.ChangeOverGeneration = ChangeOverGeneration
+
+    def m_vtr_strict():          # <= -> <
+        def VTR(tolerance=0.005, target=0.0):
+            doc = "VTR with %s" % {'tolerance': tolerance, 'target': target}
+            def _VTR(inst, info=False):
+                info = (lambda x: x) if info else bool
+                hist = inst.energy_history
+                if not len(hist): return info("")
+                if abs(hist[-1] - target) < tolerance: return info(doc)
+                return info("")
+            _VTR.__doc__ = doc; _VTR.__module__ = mt.__name__
+            return _VTR
+        mt.VTR = VTR
+
+    def m_or_info_all():         # Or reports info of unsatisfied members too
+        def __call__(self, solver, info=False):
+            stop = {}
+            [stop.update({f: f(solver, info)}) for f in self]
+            _any = any(stop.values())
+            if not info: return _any
+            if info == 'self': return tuple(set(k for k, v in stop.items() if v))
+            if not _any: return ""
+            return "; ".join(set(x for f in self for x in (f.__doc__ if not isinstance(f, tuple) else f(solver, True)).split("; ") if x))
+        mt.Or.__call__ = __call__
+
+    def m_and_any():             # And behaves as Or
+        mt.And.__call__ = orig["Or"].__call__
+
+    def m_crt_and_or():          # xtol AND ftol  ->  OR
+        def CandidateRelativeTolerance(xtol=1e-4, ftol=1e-4):
+            doc = "CandidateRelativeTolerance with %s" % {'xtol': xtol, 'ftol': ftol}
+            def _CandidateRelativeTolerance(inst, info=False):
+                sim = numpy.array(inst.population); fsim = numpy.array(inst.popEnergy)
+                if not len(fsim[1:]): return "Warning"
+                info = (lambda x: x) if info else bool
+                e = numpy.seterr(invalid='ignore')
+                answer = max(numpy.ravel(abs(sim[1:] - sim[0]))) <= xtol or max(abs(fsim[0] - fsim[1:])) <= ftol
+                numpy.seterr(**e)
+                return info(doc) if answer else info("")
+            _CandidateRelativeTolerance.__doc__ = doc; _CandidateRelativeTolerance.__module__ = mt.__name__
+            return _CandidateRelativeTolerance
+        mt.CandidateRelativeTolerance = CandidateRelativeTolerance
+
+    def m_el_gt():               # >= -> > in EvaluationLimits
+        def EvaluationLimits(generations=None, evaluations=None):
+            doc = "EvaluationLimits with %s" % {'generations': generations, 'evaluations': evaluations}
+            mf = float('inf') if evaluations is None else evaluations
+            mi = float('inf') if generations is None else generations
+            def _EvaluationLimits(inst, info=False):
+                info = (lambda x: x) if info else bool
+                if inst._fcalls[0] > mf or inst.generations > mi: return info(doc)
+                return info("")
+            _EvaluationLimits.__doc__ = doc; _EvaluationLimits.__module__ = mt.__name__
+            return _EvaluationLimits
+        mt.EvaluationLimits = EvaluationLimits
+
+    mutants = [("ChangeOverGeneration window off by one (lg <= g -> lg < g)", m_cog_window),
+               ("VTR <= becomes <", m_vtr_strict),
+               ("Or reports info of unsatisfied members", m_or_info_all),
+               ("And evaluated as any()", m_and_any),
+               ("CandidateRelativeTolerance xtol OR ftol", m_crt_and_or),
+               ("EvaluationLimits >= becomes >", m_el_gt)]
+    or_call, and_call = mt.Or.__dict__.get("__call__"), mt.And.__dict__.get("__call__")
+    missed = 0
+    import io, contextlib
+    for name, mut in mutants:
+        mut()
+        ck = new_check(a)
+        buf = io.StringIO()
+        with contextlib.redirect_stdout(buf):
+            try:
+                explore(ck, mt, a)
+            except Exception as ex:       # a mutant that makes mystic raise is caught as well
+                print('mutant raised', repr(ex)); ck.violations += 1
+        for k in ("ChangeOverGeneration", "VTR", "CandidateRelativeTolerance", "EvaluationLimits"):
+            setattr(mt, k, orig[k])
+        mt.Or.__call__ = or_call
+        if and_call is None:
+            try: del mt.And.__call__
+            except AttributeError: pass
+        print("SELFTEST %s: %s (%d violations)" % (name, "caught" if ck.violations else "MISSED", ck.violations))
+        missed += 0 if ck.violations else 1
+    import shutil, os
+    return 1 if missed else 0
+
+
+def main():
+    a = tier_seed()
+    assert_repo()
+    import mystic.termination as mt
+    if a.selftest:
+        return selftest(a, mt)
+    ck = new_check(a)
+    explore(ck, mt, a)
     return ck.finish()
 
 
